@@ -158,6 +158,9 @@ theorem matchArm_ok {vs : List (PatName × Nat)} {st st' : MState} {h : ArmHead}
         obtain ⟨m, nf⟩ := mk
         have hmem := find_variant hf
         simp only [hf] at hok
+        by_cases hdup2 : (C07Facts.matchDuplicateVariantIsError && patIn n st.used) = true
+        · simp [hdup2] at hok
+        simp only [hdup2, Bool.false_eq_true, ↓reduceIte] at hok
         cases har : arityCheck nf bs with
         | error e => simp [har] at hok
         | ok u =>
@@ -182,10 +185,7 @@ theorem matchArm_ok {vs : List (PatName × Nat)} {st st' : MState} {h : ArmHead}
           | false =>
             simp only [Bool.false_eq_true, ↓reduceIte] at hok
             by_cases hin : patIn n st.used = true
-            · simp only [hin, ↓reduceIte] at hok
-              by_cases hdup : C07Facts.matchDuplicateVariantIsError = true
-              · simp [hdup] at hok
-              simp only [hdup, Bool.false_eq_true, ↓reduceIte, Except.ok.injEq] at hok
+            · simp only [hin, ↓reduceIte, Except.ok.injEq] at hok
               subst hok
               have hnin := (patIn_iff n st.used).1 hin
               refine ⟨?_, ?_, ?_, ?_⟩
@@ -228,6 +228,78 @@ theorem matchArm_ok {vs : List (PatName × Nat)} {st st' : MState} {h : ArmHead}
                 · subst hn
                   right
                   exact List.mem_map.2 ⟨(n', nf), hmem, rfl⟩
+
+/-- if a repeated variant is an error, an accepted variant arm is the first unguarded-covered one -/
+theorem matchArm_nodup {vs : List (PatName × Nat)} {st st' : MState} {h : ArmHead}
+    (hfact : C07Facts.matchDuplicateVariantIsError = true) (hok : matchArm vs st h = .ok st')
+    (n : PatName) (bs : Option (List Nat)) (hp : h.pat = .variant n bs) : n ∉ st.used := by
+  obtain ⟨pat, guarded⟩ := h
+  simp only at hp
+  subst hp
+  unfold matchArm at hok
+  cases hd : st.dflt with
+  | true => simp [hd] at hok
+  | false =>
+    simp only [hd, Bool.false_eq_true, ↓reduceIte] at hok
+    cases hf : vs.find? (fun v => patNameEq v.1 n) with
+    | none => simp [hf] at hok
+    | some mk =>
+      obtain ⟨m, nf⟩ := mk
+      simp only [hf, hfact, Bool.true_and] at hok
+      intro hmem
+      have := (patIn_iff n st.used).2 hmem
+      simp [this] at hok
+
+/-- no arm repeats a variant that an earlier unguarded arm covers -/
+def NoRepeatedVariant (arms : List ArmHead) : Prop :=
+  ∀ pre a post, arms = pre ++ a :: post → ∀ n bs, a.pat = .variant n bs →
+    ¬ ∃ b ∈ pre, b.guarded = false ∧ ∃ bs', b.pat = .variant n bs'
+
+theorem matchLoop_norepeat (vs : List (PatName × Nat))
+    (hfact : C07Facts.matchDuplicateVariantIsError = true) :
+    ∀ (arms : List ArmHead) (st st' : MState), matchLoop vs st arms = .ok st' →
+      ∀ pre a post, arms = pre ++ a :: post → ∀ n bs, a.pat = .variant n bs →
+        n ∉ st.used ∧ ¬ ∃ b ∈ pre, b.guarded = false ∧ ∃ bs', b.pat = .variant n bs' := by
+  intro arms
+  induction arms with
+  | nil => intro st st' _ pre a post hh; simp at hh
+  | cons a0 rest ih =>
+    intro st st' h pre a post hsplit n bs hp
+    simp only [matchLoop] at h
+    cases ha : matchArm vs st a0 with
+    | error e => simp [ha] at h
+    | ok st1 =>
+      simp only [ha] at h
+      obtain ⟨_, _, _, hused1, _, _⟩ := matchArm_ok ha
+      cases pre with
+      | nil =>
+        simp only [List.nil_append, List.cons.injEq] at hsplit
+        obtain ⟨h1, _⟩ := hsplit
+        subst h1
+        exact ⟨matchArm_nodup hfact ha n bs hp, by simp⟩
+      | cons p0 pre' =>
+        simp only [List.cons_append, List.cons.injEq] at hsplit
+        obtain ⟨h1, h2⟩ := hsplit
+        subst h1
+        obtain ⟨hn1, hnone⟩ := ih st1 st' h pre' a post h2 n bs hp
+        refine ⟨fun hmem => hn1 ((hused1 n).2 (Or.inl hmem)), ?_⟩
+        rintro ⟨b, hb, hg, bs', hbp⟩
+        rcases List.mem_cons.1 hb with hb | hb
+        · subst hb
+          exact hn1 ((hused1 n).2 (Or.inr ⟨hg, bs', hbp⟩))
+        · exact hnone ⟨b, hb, hg, bs', hbp⟩
+
+theorem matchReal_norepeat (vs : List (PatName × Nat)) (arms : List ArmHead)
+    (hfact : C07Facts.matchDuplicateVariantIsError = true) (h : matchReal vs arms = none) :
+    NoRepeatedVariant arms := by
+  unfold matchReal at h
+  have hm : matchModelled = true := by decide
+  simp only [hm, Bool.not_true, Bool.false_eq_true, ↓reduceIte] at h
+  cases hl : matchLoop vs ⟨[], false⟩ arms with
+  | error e => simp [hl] at h
+  | ok st =>
+    intro pre a post hs n bs hp
+    exact (matchLoop_norepeat vs hfact arms _ _ hl pre a post hs n bs hp).2
 
 /-- the loop invariant, by induction over the arms -/
 theorem matchLoop_ok (vs : List (PatName × Nat)) :
